@@ -375,6 +375,31 @@ def scn_filters_and_failures(T, case):
     C02.scn_rows(Renamed(T, "C02.rows.", "C03.combined."), case)
 
 
+# ------------------------------------------------------------------------------------ an evaluator (and its estimator objects) that has evaluated other points before
+def cases_history(tier):
+    from contracts import C01, C02
+
+    for cid, c in C01.cases_stddev(tier):
+        if c.get("prior_failed") is not None:
+            yield "functions/" + cid, dict(c, __which__="C01")
+    for cid, c in C02.cases_gradient(tier):
+        if c.get("prior_function"):
+            yield "gradients/" + cid, dict(c, __which__="C02")
+
+
+def scn_history(T, case):
+    """'As if the failed realizations were absent' on an evaluator with a history: an earlier evaluation with ANOTHER failure pattern
+    leaves nothing behind (estimator objects keep no count of surviving realizations), and a gradient-only request uses the cached
+    function values - and failure flags - only when they belong to the very same point, fixed variables included (C01's and C02's
+    history cases under this property's prefix)."""
+    from contracts import C01, C02
+    from contracts.reuse import Renamed
+
+    if case["__which__"] == "C01":
+        C01.scn_functions(Renamed(T, "C01.", "C03.history.functions."), case)
+    else:
+        C02.scn_gradient(Renamed(T, "C02.", "C03.history.gradients."), case)
+
 SCENARIOS = [
     Scenario("failure_flags", scn_flags, cases_flags, {"quick": 10, "thorough": 100}),
     Scenario("reduced_ensemble_equivalence", scn_equiv, cases_equiv, {"quick": 3, "thorough": 20}),
@@ -383,6 +408,7 @@ SCENARIOS = [
     Scenario("run_evaluations", scn_run, cases_run, {"quick": 1, "thorough": 1}),
     Scenario("validated_success_threshold", scn_threshold, cases_threshold, {"quick": 2, "thorough": 10}),
     Scenario("filters_failures_and_combined_requests", scn_filters_and_failures, cases_filters_and_failures, {"quick": 5, "thorough": 30}),
+    Scenario("evaluator_with_a_history", scn_history, cases_history, {"quick": 5, "thorough": 30}),
 ]
 
 MANIFEST = {
